@@ -19,17 +19,19 @@ func ZzC17() {
 	cfg := zzCfgsQuick[cfgIdx[zz.Choice("cfg", zz.Param("CFGS", 4))]]
 	d := zzNewMemDS()
 	s := zzOpen(d, cfg)
-	chain := zzChain(cfg.base, K+2)
-	// two headers are there from the start (flushed), so that a tail-side deletion is possible
-	zz.Assert(s.Append(ctx, chain[:2]...) == nil, "Append ok")
+	// DELN: how many headers the deleter removes from the tail; DELN+1 headers are there from the start
+	// (flushed), so that the tail-side deletion is possible. The writers' headers follow.
+	N0 := 1 + zz.Param("DELN", 1)
+	chain := zzChain(cfg.base, K+N0)
+	zz.Assert(s.Append(ctx, chain[:N0]...) == nil, "Append ok")
 	zz.Assert(s.Sync(ctx) == nil, "Sync ok")
 	d.gates = true
 
 	// the writers' runs: sub-runs of chain[2..K+1], disjoint or overlapping
 	type run struct{ i, j int }
 	pick := func(name string) run {
-		i := 2 + zz.Choice(name+".i", K)
-		j := i + zz.Choice(name+".len", K+2-i)
+		i := N0 + zz.Choice(name+".i", K)
+		j := i + zz.Choice(name+".len", K+N0-i)
 		return run{i, j}
 	}
 	runs := []run{pick("w0"), pick("w1")}
@@ -58,10 +60,10 @@ func ZzC17() {
 	if withDeleter {
 		go func() {
 			zz.Gate("deleter:start")
-			to := chain[1].H // removes the tail header only
+			to := chain[N0-1].H // removes everything but the newest of the initial headers
 			if delWhole {
 				// everything that was stored when the deleter looked: races with the appends at the head
-				to = chain[1].H + 1
+				to = chain[N0-1].H + 1
 			}
 			err := s.DeleteRange(ctx, chain[0].H, to)
 			zz.Assert(err == nil, "tail-side DeleteRange succeeds while writers append at the head")
@@ -92,6 +94,12 @@ func ZzC17() {
 			g2, err := s.Get(ctx, head.Hash())
 			zz.Assert(err == nil && g2 != nil && bytes.Equal(g2.Hash(), head.Hash()), "the header returned by Head() is retrievable by hash")
 		}
+		if withDeleter && N0 > 2 {
+			// a read of the last header of the range being deleted: it may or may not be there any more,
+			// but the read must not bring it back
+			_, _ = s.GetByHeight(ctx, chain[N0-2].H)
+			_, _ = s.Get(ctx, chain[N0-2].Hash())
+		}
 		zz.Reach("observed")
 	}
 	zz.Quiesce()
@@ -106,7 +114,7 @@ func ZzC17() {
 	// reference: a sequential execution of the same appends on a second store
 	d2 := zzNewMemDS()
 	s2 := zzOpen(d2, cfg)
-	zz.Assert(s2.Append(ctx, chain[:2]...) == nil, "Append ok")
+	zz.Assert(s2.Append(ctx, chain[:N0]...) == nil, "Append ok")
 	for _, r := range runs {
 		zz.Assert(s2.Append(ctx, chain[r.i:r.j+1]...) == nil, "Append ok")
 	}
@@ -115,7 +123,7 @@ func ZzC17() {
 	h2, e2 := s2.Head(ctx)
 	if !delWhole {
 		zz.Assert(e1 == nil && e2 == nil && h1.H == h2.H, "after all writers finish Head equals that of a sequential execution")
-		for k := 2; k < K+2; k++ {
+		for k := N0; k < K+N0; k++ {
 			_, ea := s.Get(ctx, chain[k].Hash())
 			_, eb := s2.Get(ctx, chain[k].Hash())
 			zz.Assert((ea == nil) == (eb == nil), "after all writers finish the stored headers equal those of a sequential execution")
@@ -123,10 +131,11 @@ func ZzC17() {
 	}
 	if deleted && delWhole {
 		zz.Reach("deleted-whole")
-		// whatever the interleaving: the two initial headers are gone and what remains is one gap-free run
-		_, ea := s.Get(ctx, chain[0].Hash())
-		_, eb := s.Get(ctx, chain[1].Hash())
-		zz.Assert(ea != nil && eb != nil, "the deleted headers are gone")
+		// whatever the interleaving: the initial headers are gone and what remains is one gap-free run
+		for k := 0; k < N0; k++ {
+			_, ea := s.Get(ctx, chain[k].Hash())
+			zz.Assert(ea != nil, "the deleted headers are gone")
+		}
 		tail, et := s.Tail(ctx)
 		head, eh := s.Head(ctx)
 		if et == nil && eh == nil {
@@ -138,15 +147,19 @@ func ZzC17() {
 	} else if deleted {
 		zz.Reach("deleted")
 		tail, err := s.Tail(ctx)
-		zz.Assert(err == nil && tail.H == chain[1].H, "Tail moved to the next header")
+		zz.Assert(err == nil && tail.H == chain[N0-1].H, "Tail moved to the next header")
 		if err == nil && e1 == nil {
 			for hh := tail.H; hh <= h1.H; hh++ {
 				g, err := s.GetByHeight(ctx, hh)
 				zz.Assert(err == nil && g != nil && g.H == hh, "a tail-side DeleteRange racing with appends leaves a gap-free chain")
 			}
 		}
-		_, err = s.Get(ctx, chain[0].Hash())
-		zz.Assert(err != nil, "the deleted tail header is gone")
+		for k := 0; k < N0-1; k++ {
+			_, err = s.Get(ctx, chain[k].Hash())
+			zz.Assert(err != nil, "the deleted tail header is gone")
+			_, err = s.GetByHeight(ctx, chain[k].H)
+			zz.Assert(err != nil, "the deleted tail header is gone")
+		}
 	} else {
 		t1, e3 := s.Tail(ctx)
 		t2, e4 := s2.Tail(ctx)
